@@ -33,7 +33,9 @@ MANIFEST = {
 RULE = ("programs as in C01 whose bodies also attach details under names from {traceback, traceback-1, traceback-1-2, "
         "traceback-2, Failed expectation, Failed expectation-1, log, x, x-1, fxd, fxd-1}, make mismatches carrying 0-2 "
         "details, use 0-2 fixtures carrying 0-2 details (ok / failing old style / failing with SetupError), raise 0-4 "
-        "exceptions, register 0-2 addOnException handlers, and change cells (payloads: empty, multi-chunk, not UTF-8); "
+        "exceptions, register 0-2 addOnException handlers (odd-numbered ones read every detail the test has when they are called), "
+        "read their own details mid-run (peek) and change cells before and after (payloads: empty, multi-chunk, not UTF-8; one Content "
+        "object per source); "
         "non-trivial = a detail-attaching statement together with a raising statement, or two detail sources with the "
         "same base name; distinct = distinct JSON; plus fixtures one of whose details cannot be evaluated when it is gathered, @unittest.expectedFailure tests ending in every behaviour, force_failure set on the failed-setUp path")
 TRUSTED = ["the recording subclass of doubles.ExtendedTestResult reads each content's bytes when the outcome call "
@@ -47,7 +49,34 @@ EXPLANATION = ("Theorems in coq/Props/C05.v over all programs; correspondence: T
                "details passed with the outcome (base name + payload read at that moment, traceback count) and on the "
                "addOnException handler calls and their position relative to the outcome.")
 
-FEATS = frozenset(["details", "fixture", "onexc", "cells", "badfx"])
+FEATS = frozenset(["details", "fixture", "onexc", "cells", "badfx", "peek"])
+
+
+def peek_programs():
+    """a detail backed by a live source is read BEFORE the outcome - by the body, by tearDown, by a cleanup, by an
+    addOnException handler (odd number) - and the source changes afterwards: what arrives are the bytes of
+    reporting time.  Sources: addDetail, a mismatch's detail (expectThat / assertThat), the same source under two names."""
+    E = R.E
+    X, LOG, TB = [4, []], [3, []], [0, []]
+    attach = [[["detail", X, 1]], [["expect", [[X, 1]]]], [["detail", X, 1], ["detail", LOG, 1]],
+              [["detail", TB, 1], ["detail", X, 2]]]
+    ends = [[], [["raise", E("Fail")]], [["raise", E("Kbd")]], [["assert", [[LOG, 1]]]]]
+    for at in attach:
+        for end in ends:
+            peek = ["peek", at[0][1] if at[0][0] == "detail" else X]
+            # the body looks at its own detail half way through
+            yield R.mkprog(body=[["setcell", 1, 3]] + at + [peek, ["setcell", 1, 5], ["setcell", 2, 4]] + end)
+            # tearDown / a cleanup changes the source after the body peeked
+            yield R.mkprog(setup=[["cleanup", 10, [["setcell", 1, 2]]]], body=at + [peek] + end,
+                           teardown=[["setcell", 1, 4]])
+            # a cleanup peeks, an older cleanup writes afterwards
+            yield R.mkprog(setup=[["cleanup", 10, [["setcell", 1, 5]]], ["cleanup", 11, [peek]]],
+                           body=[["setcell", 1, 1]] + at + end)
+            # an addOnException handler reads every detail when the test fails; tearDown and a cleanup write on
+            yield R.mkprog(setup=[["onexc", 1], ["cleanup", 10, [["setcell", 1, 2], ["setcell", 2, 3]]]],
+                           body=[["setcell", 1, 3]] + at + (end or [["raise", E("ValueError")]]),
+                           teardown=[["setcell", 1, 5], ["raise", E("ValueError")]])
+
 
 
 def drive(case):
@@ -126,6 +155,9 @@ def generate(rng, tier):
     # @unittest.expectedFailure tests: the traceback of what the wrapper turns into an expected failure
     for p, _ in R.xfail_programs():
         cases.append({"prog": p})
+    # details read before the outcome while their source keeps changing
+    for p in peek_programs():
+        cases.append({"prog": R.retoken(p)})
     n = 5000 if tier == "quick" else 90000
     for k in range(n):
         feats = FEATS if k % 4 else frozenset(["details", "cells"])
